@@ -25,6 +25,33 @@ Lemma streaming_method_not_invocable :
   forall m a b, lookup m method_table = Some (MStream a b) -> invoke_lookup m = Some 12.
 Proof. intros m a b H. unfold invoke_lookup. rewrite H. reflexivity. Qed.
 
+(* ---- SendHeader's own test of the context makes the outer tests redundant ---- *)
+
+(* with [fx_sendh_done], latching "if needed" on a finished call does nothing: the tests of the context in
+   Close (fx_hdr_on_close's "unless the client is gone") and in the server's SendMsg (fx_send_done) no
+   longer matter -- a source tree that drops them behaves the same (used by the generated order facts) *)
+Lemma sendh_done_subsumes : forall fx s,
+  fx_sendh_done fx = true -> w_done s = true -> w_sendHeaderIfNeeded fx s = s.
+Proof. intros fx s Hf Hd. unfold w_sendHeaderIfNeeded, w_SendHeader. rewrite Hf, Hd. reflexivity. Qed.
+
+Lemma send_done_subsumed : forall a b c d f s,
+  w_done s = true ->
+  w_server_send_done (mkFx a b c d true f) s = w_server_send_done (mkFx a b c true true f) s.
+Proof.
+  intros a b c d f s Hd. unfold w_server_send_done. cbn [fx_send_done].
+  destruct d; [reflexivity | apply sendh_done_subsumes; [reflexivity | exact Hd]].
+Qed.
+
+Lemma close_guard_subsumed : forall fx e s,
+  fx_sendh_done fx = true -> w_cancelled s = true ->
+  w_Close fx e s = mkW (w_header (w_sendHeaderIfNeeded fx s)) (w_sent (w_sendHeaderIfNeeded fx s))
+                       (w_trailer (w_sendHeaderIfNeeded fx s)) true e (w_ctx (w_sendHeaderIfNeeded fx s))
+                       (w_half (w_sendHeaderIfNeeded fx s)).
+Proof.
+  intros fx e s Hf Hc. unfold w_Close. rewrite Hc, andb_false_r. cbn [negb].
+  rewrite sendh_done_subsumes; [reflexivity | exact Hf | unfold w_done; rewrite Hc; apply orb_true_r].
+Qed.
+
 (* ---- wrapper = gRPC on the rendezvous fragment ---- *)
 
 Definition w_obs fx sh r l := snd (w_steps fx sh r l).
